@@ -604,3 +604,77 @@ class BytesOf:
 
     def __init__(self, s):
         self.s = s
+
+
+# --------------------------------------------------------------------------------------------------------------
+# bytes / bytearray (added for the serdes bit layer, C06/C07)
+class BytesV:
+    """bytes (immutable) or bytearray (`mutable`): z3 array Int -> Int of byte values plus a length term.
+       `view` = (base_arr, base_len, start_byte, span): for 0 <= i < span the zero-extended byte i of this value is the
+       zero-extended byte start_byte + i of the base (provenance of slices / zero padding; see bittheory)."""
+
+    def __init__(self, arr, length, mutable=False, view=None, concrete=None, fresh=True):
+        self.arr = arr
+        self.length = length
+        self.mutable = mutable
+        self.view = view
+        self.concrete = concrete  # python bytes when the value is a literal
+        self.fresh = fresh
+
+    def __repr__(self):
+        return "<%s len=%s>" % ("bytearray" if self.mutable else "bytes", self.length)
+
+
+class _Bytes(Kind):
+    """Kind of a bytes / bytearray value: every element is a byte (0..255), the length is non-negative."""
+
+    def __init__(self, mutable=False):
+        self.mutable = mutable
+
+    def build(self, ctx, mk):
+        arr = mk("!bytes", z3.ArraySort(z3.IntSort(), z3.IntSort()))
+        n = mk("!len", z3.IntSort())
+        ctx.assume(n >= 0)
+        return BytesV(arr, n, mutable=self.mutable, fresh=False)
+
+    def sort(self):
+        raise EngineLimit("Bytes has no single sort")
+
+    def __repr__(self):
+        return "ByteArray" if self.mutable else "Bytes"
+
+
+Bytes = _Bytes(False)
+ByteArray = _Bytes(True)
+
+
+class MutObjOf(Kind):
+    """A *materialised* (mutable) object of exactly the given class with fresh field values satisfying the class
+       invariant: used for parameters / results such as the bit reader / writer whose fields callees modify."""
+
+    def __init__(self, clsname: str):
+        self.clsname = clsname
+
+    def build(self, ctx, mk):
+        eng = ctx.engine
+        cls = eng.repo.cls(self.clsname)
+        ref = mk("!ref", RefSort)
+        ctx.assume(eng.tag_fn(ref) == eng.class_id(cls))
+        fields = {}
+        for n, k in eng.all_field_kinds(cls).items():
+            fields[n] = k.build(ctx, lambda s, so, n=n: mk("." + n + s, so))
+        o = Obj(cls, True, ref, fields, ctx)
+        from .symexec import lift_bool
+
+        for label, inv in eng.class_invariants(ctx, o):
+            ctx.assume(lift_bool(inv))
+        return o
+
+    def sort(self):
+        return RefSort
+
+    def unwrap(self, v):
+        return v.ref
+
+    def __repr__(self):
+        return "MutObjOf(%s)" % self.clsname
